@@ -80,6 +80,9 @@ var c38ParamSpecs = map[string]c38ParamSpec{
 }
 
 var c38SamplerTypes = []string{"DeterministicSampler", "DynamicSampler", "EMADynamicSampler", "RulesBasedSampler", "TotalThroughputSampler"}
+
+// drawn from: rules-based samplers (the only nested structure) are over-represented
+var c38SamplerDraw = []string{"DeterministicSampler", "DynamicSampler", "EMADynamicSampler", "RulesBasedSampler", "RulesBasedSampler", "RulesBasedSampler", "TotalThroughputSampler"}
 var c38DownTypes = []string{"DynamicSampler", "EMADynamicSampler", "TotalThroughputSampler"}
 var c38DatasetNames = []string{"dataset1", "my-service", "my env", "Production", "env_2", "api", "checkout"}
 var c38RuleFields = []string{"http.route", "status_code", "duration_ms", "service name", "error", "trace.parent_id", "app.tenant"}
@@ -91,8 +94,8 @@ func c38GenFieldList(t *rapid.T, label string) c38Val {
 }
 
 func c38GenSampler(t *rapid.T, types []string, label string, depth int) c38Sampler {
-	s := c38Sampler{Type: rapid.SampledFrom(types).Draw(t, label+"-type")}
-	opt := func(name string) bool { return rapid.IntRange(0, 2).Draw(t, label+"-has-"+name) > 0 }
+	s := c38Sampler{Type: types[c38Roll(t, len(types), label+"-type")]}
+	opt := func(name string) bool { return c38Roll(t, 3, label+"-has-"+name) > 0 }
 	intOf := func(name string, vals ...int) c38Val {
 		return c38Val{K: "int", I: int64(rapid.SampledFrom(vals).Draw(t, label+"-"+name))}
 	}
@@ -105,14 +108,14 @@ func c38GenSampler(t *rapid.T, types []string, label string, depth int) c38Sampl
 		if opt("UseTraceLength") {
 			add("UseTraceLength", c38Val{K: "bool", B: rapid.Bool().Draw(t, label+"-utl")})
 		}
-		if rapid.IntRange(0, 3).Draw(t, label+"-has-addkey") == 0 {
+		if c38Roll(t, 4, label+"-has-addkey") == 0 {
 			add("AddSampleRateKeyToTrace", c38Val{K: "bool", B: true})
 			add("AddSampleRateKeyToTraceField", c38Val{K: "str", S: "meta.refinery.dynsampler_key"})
 		}
 	}
 	clearFreq := func() {
-		switch rapid.IntRange(0, 5).Draw(t, label+"-clearfreq") {
-		case 0, 1, 2:
+		switch c38Roll(t, 6, label+"-clearfreq") {
+		case 0, 1, 2, 4:
 			add("ClearFrequencySec", intOf("cfs", 1, 10, 30, 45, 60, 90, 300, 3600))
 		case 3:
 			// the spelling the v1 reference file of this tree documents
@@ -159,10 +162,10 @@ func c38GenSampler(t *rapid.T, types []string, label string, depth int) c38Sampl
 		for i := 0; i < n; i++ {
 			rl := fmt.Sprintf("%s-r%d", label, i)
 			r := c38Rule{}
-			if rapid.IntRange(0, 4).Draw(t, rl+"-named") > 0 {
+			if c38Roll(t, 5, rl+"-named") > 0 {
 				r.Name = rapid.SampledFrom([]string{"drop healthchecks", "keep slow 500 errors", "errors", "rule-1", "sample: users", "200s"}).Draw(t, rl+"-name")
 			}
-			nc := rapid.IntRange(0, 3).Draw(t, rl+"-nconds")
+			nc := c38Roll(t, 4, rl+"-nconds")
 			for j := 0; j < nc; j++ {
 				cl := fmt.Sprintf("%s-c%d", rl, j)
 				c := c38V1Cond{Field: rapid.SampledFrom(c38RuleFields).Draw(t, cl+"-field"), Op: rapid.SampledFrom(c38Ops).Draw(t, cl+"-op")}
@@ -172,7 +175,7 @@ func c38GenSampler(t *rapid.T, types []string, label string, depth int) c38Sampl
 				case c.Op == "starts-with" || c.Op == "contains" || c.Op == "does-not-contain":
 					c.Val = c38Val{K: "str", S: rapid.SampledFrom([]string{"/health", "users", "5", "a b", "error: x"}).Draw(t, cl+"-sv")}
 				default:
-					switch rapid.IntRange(0, 3).Draw(t, cl+"-vk") {
+					switch c38Roll(t, 4, cl+"-vk") {
 					case 0:
 						c.Val = c38Val{K: "int", I: int64(rapid.SampledFrom([]int{0, 1, 200, 500, 1000, -1}).Draw(t, cl+"-iv"))}
 					case 1:
@@ -182,22 +185,22 @@ func c38GenSampler(t *rapid.T, types []string, label string, depth int) c38Sampl
 					default:
 						c.Val = c38Val{K: "bool", B: rapid.Bool().Draw(t, cl+"-bv")}
 					}
-					if rapid.IntRange(0, 3).Draw(t, cl+"-dt") == 0 {
+					if c38Roll(t, 4, cl+"-dt") == 0 {
 						c.Datatype = rapid.SampledFrom([]string{"string", "int", "float", "bool"}).Draw(t, cl+"-dtv")
 					}
 				}
 				r.Conds = append(r.Conds, c)
 			}
-			switch k := rapid.IntRange(0, 9).Draw(t, rl+"-action"); {
+			switch k := c38Roll(t, 10, rl+"-action"); {
 			case k < 2:
 				r.Drop = true
-			case k < 6 || depth > 0:
+			case k < 5 || depth > 0:
 				r.SampleRate = int64(rapid.SampledFrom([]int{1, 5, 10, 100}).Draw(t, rl+"-rate"))
 			default:
 				d := c38GenSampler(t, c38DownTypes, rl+"-down", depth+1)
 				r.Down = &d
 			}
-			if rapid.IntRange(0, 3).Draw(t, rl+"-scoped") == 0 {
+			if c38Roll(t, 4, rl+"-scoped") == 0 {
 				r.Scope = rapid.SampledFrom([]string{"span", "trace"}).Draw(t, rl+"-scope")
 			}
 			s.Rules = append(s.Rules, r)
@@ -207,11 +210,11 @@ func c38GenSampler(t *rapid.T, types []string, label string, depth int) c38Sampl
 }
 
 func genC38Rules(t *rapid.T) *c38RuleDoc {
-	d := &c38RuleDoc{KeyStyle: rapid.SampledFrom([]string{"ref", "ref", "lower", "camel"}).Draw(t, "keystyle")}
-	d.Default = c38GenSampler(t, c38SamplerTypes, "default", 0)
+	d := &c38RuleDoc{KeyStyle: []string{"ref", "ref", "lower", "camel"}[c38Roll(t, 4, "keystyle")]}
+	d.Default = c38GenSampler(t, c38SamplerDraw, "default", 0)
 	names := rapid.SliceOfNDistinct(rapid.SampledFrom(c38DatasetNames), 0, 4, func(s string) string { return s }).Draw(t, "datasets")
 	for i, n := range names {
-		d.Datasets = append(d.Datasets, c38Dataset{Name: n, Sampler: c38GenSampler(t, c38SamplerTypes, fmt.Sprintf("ds%d", i), 0)})
+		d.Datasets = append(d.Datasets, c38Dataset{Name: n, Sampler: c38GenSampler(t, c38SamplerDraw, fmt.Sprintf("ds%d", i), 0)})
 	}
 	return d
 }
